@@ -395,7 +395,7 @@ type c12APICase struct {
 	Side  int    `json:"side"`
 }
 
-var c12APIKinds = []string{"close-then-io", "double-close", "write-after-closewrite", "early-closewrite", "failed-handshake-sticky", "early-appdata", "cancel", "write-error-sticky", "deadline-mid-record"}
+var c12APIKinds = []string{"close-then-io", "double-close", "write-after-closewrite", "early-closewrite", "failed-handshake-sticky", "early-appdata", "cancel", "write-error-sticky", "deadline-mid-record", "fatal-after-closewrite"}
 
 func c12RunAPI(c c12APICase) (sig, msg string, nt bool) {
 	buf := make([]byte, 32)
@@ -447,6 +447,61 @@ func c12RunAPI(c c12APICase) (sig, msg string, nt bool) {
 				return "peer-eof-after-closewrite", fmt.Sprintf("peer Read returned (%d, %v), want io.EOF", n, err), true
 			}
 		}
+		return "", "", true
+	case "fatal-after-closewrite":
+		// the reader has shut down its own write side (CloseWrite) and goes on reading; then a record
+		// that must be fatal arrives (J: 0 garbage of type 23, 1 garbage of type 22, 2 unknown type,
+		// 3 plaintext alert-like record, 4 a correctly protected handshake record), followed by ordinary
+		// data: the error must be reported, stay reported, and the data behind it must not come out
+		cli, srv, sim, err := c12Established(c.Suite)
+		if err != nil {
+			return "honest-failed", err.Error(), false
+		}
+		x, y, xi := cli, srv, 0
+		if c.Side == 1 {
+			x, y, xi = srv, cli, 1
+		}
+		if c.J < 5 {
+			if err := x.CloseWrite(); err != nil {
+				return "closewrite-error", err.Error(), true
+			}
+		}
+		garbage := bytes.Repeat([]byte{0xA5}, 48)
+		switch c.J % 5 {
+		case 0:
+			sim.ends[1-xi].inject(append([]byte{23, 1, 1, 0, 48}, garbage...))
+		case 1:
+			sim.ends[1-xi].inject(append([]byte{22, 1, 1, 0, 48}, garbage...))
+		case 2:
+			sim.ends[1-xi].inject(append([]byte{99, 1, 1, 0, 48}, garbage...))
+		case 3:
+			sim.ends[1-xi].inject([]byte{21, 1, 1, 0, 2, 2, 40})
+		case 4:
+			if err := vfPeerRawRecord(y, recordTypeHandshake, []byte{0, 0, 0, 0}); err != nil {
+				return "harness", err.Error(), false
+			}
+		}
+		y.Write([]byte("data behind the fatal record"))
+		sim.ends[1-xi].cutNow() // nothing more will come: a reader that swallowed the error ends in EOF instead of waiting
+		var got []byte
+		var rerr error
+		for i := 0; i < 50 && rerr == nil && len(got) == 0; i++ {
+			n, e := x.Read(buf)
+			got = append(got, buf[:n]...)
+			rerr = e
+			if n == 0 && e == nil {
+				rerr = errors.New("Read returned (0, nil)")
+				return "read-zero-nil", fmt.Sprintf("after a record that must be fatal (kind %d, reader half-closed: %v) Read returned (0, nil)", c.J%5, c.J < 5), true
+			}
+		}
+		if len(got) > 0 || rerr == nil || rerr == io.EOF {
+			return "fatal-record-swallowed", fmt.Sprintf("a record that must be fatal (kind %d) arrived at a reader that had called CloseWrite: %v; Read delivered %q and ended with %v", c.J%5, c.J < 5, got, rerr), true
+		}
+		if n, e := x.Read(buf); n != 0 || e == nil {
+			return "error-not-sticky", fmt.Sprintf("a later Read returned (%d, %v)", n, e), true
+		}
+		sim.ends[0].Close()
+		sim.ends[1].Close()
 		return "", "", true
 	case "deadline-mid-record":
 		// A read deadline expires while only part of a record (J bytes: inside the header or inside the
@@ -817,7 +872,7 @@ func TestVF_C12(t *testing.T) {
 	}
 	recB.SetExhaustive(vfThorough(), fmt.Sprintf("%d alert cases (5 levels x 256 codes x 2 roles in the thorough tier)", j))
 
-	recC := vfRec("C12", "C12c-api", "API histories: Close then Read/Write, double Close, Write after CloseWrite (read half still usable, peer sees EOF), CloseWrite before completion, failed handshake stays failed (Handshake, Read, Write), application data injected in the clear before every record of the handshake, context cancellation before and right after every transport operation of the handshake (including the last one), a read deadline that expires with 1..6, 40 or 200 bytes of a record arrived and is then extended (the rest arrives: data whole; the transport ends: unexpected EOF), a Write failing on a transport write timeout (before the first / between the records of one payload) must stay failed after the deadline is cleared and the peer sees only a prefix; both sides, suites GCM and CBC; distinct = the case")
+	recC := vfRec("C12", "C12c-api", "API histories: Close then Read/Write, double Close, Write after CloseWrite (read half still usable, peer sees EOF), CloseWrite before completion, failed handshake stays failed (Handshake, Read, Write), application data injected in the clear before every record of the handshake, context cancellation before and right after every transport operation of the handshake (including the last one), five kinds of record that must be fatal arriving at a reader that has or has not called CloseWrite (error reported and kept, nothing behind it delivered), a read deadline that expires with 1..6, 40 or 200 bytes of a record arrived and is then extended (the rest arrives: data whole; the transport ends: unexpected EOF), a Write failing on a transport write timeout (before the first / between the records of one payload) must stay failed after the deadline is cleared and the peer sees only a prefix; both sides, suites GCM and CBC; distinct = the case")
 	k := 0
 	for _, suite := range suites {
 		for side := 0; side < 2; side++ {
@@ -834,6 +889,8 @@ func TestVF_C12(t *testing.T) {
 					maxJ = 5
 				case "deadline-mid-record":
 					maxJ = 15
+				case "fatal-after-closewrite":
+					maxJ = 9
 				}
 				js := []int{}
 				for jj := 0; jj <= maxJ; jj++ {
